@@ -83,6 +83,10 @@ MC_WRITE_CFG = ("SPECIFICATION Spec\nINVARIANT OfferedIsPrefix\nINVARIANT Accept
                 "PROPERTY Termination\nCHECK_DEADLOCK FALSE\n")
 
 
+ENDPOINT_CFG = ("SPECIFICATION Spec\nPROPERTY Linearizable\nPROPERTY ReadOnly\nPROPERTY Bystanders\nCHECK_DEADLOCK FALSE\n"
+                "CONSTANTS Handles = {h1, h2} Threads = {t1, t2, t3} Values = {v1, v2}\n")
+
+
 def model_theorems(run, models):
     """Design-level model checking of a specification module; a failure means the specification is wrong (exit 2)."""
     for module, cfg in models:
@@ -516,7 +520,9 @@ def c14(run):
     return check(run, "C14", {"C14"}, [("own", ONE_PART), ("reuse", ONE_PART)],
                  "pairs of frames decoded directly from a reused buffer / by ReadPacket / next to fresh packets, the input "
                  "buffer and returned slices overwritten; after every event every live packet not named by the event must "
-                 "report the accessor values of the model", [])
+                 "report the accessor values of the model; Endpoint.tla model-checks the composition (read-only operations leave the pool "
+                 "unchanged in every interleaving of their call and return steps, a mutation changes the named packet only)", [],
+                 models=[("Endpoint", ENDPOINT_CFG)])
 
 
 def c16(run):
@@ -557,7 +563,7 @@ def c13(run):
                  "concurrent encoding that differs from the sequential one is a violation",
                  ["D10: goroutines start after the packets are built", "race freedom is observed by the Go race detector "
                   "(no false positives) for the executions that ran; TLA+ contributes the configurations and the expected bytes"],
-                 level="exploration", drive_kw={"race": True, "workers": 4, "timeout_ms": 60000})
+                 level="exploration", drive_kw={"race": True, "workers": 4, "timeout_ms": 60000}, models=[("Endpoint", ENDPOINT_CFG)])
 
 
 def vbi_sweep(run):
